@@ -150,8 +150,16 @@ def gen_cases(rng, n, nid):
             kind = "confused"                          # a different type on the other end
             decode_as = rng.randrange(1, NTYPES + 1)
         atts = atts[:8]
-        cases.append({"id": next(nid), "ty": decode_as, "bytes": bs[:4200], "atts": atts, "kind": kind,
-                      "drop": 1 if rng.random() < 0.07 else 0})
+        dropm = 1 if rng.random() < 0.07 else 0
+        if rng.random() < 0.04:
+            # long text payloads that are valid UTF-8 throughout, multi-byte characters at every alignment: received as a raw message,
+            # logged ({:?}) and dropped, or decoded as some other type
+            ch = rng.choice(["é", "€", "\U0001F600", "ß€"])
+            txt = ("x" * rng.randrange(4) + ch * rng.randrange(90, 320)).encode()
+            bs, atts, kind = u64(len(txt)) + txt, "", "longtext"
+            decode_as = rng.choice([4, 4, 5, 8, 12])
+            dropm = 1 if rng.random() < 0.7 else 0
+        cases.append({"id": next(nid), "ty": decode_as, "bytes": bs[:4200], "atts": atts, "kind": kind, "drop": dropm})
     return cases
 
 
